@@ -198,12 +198,16 @@ def _fields():
     return {'name': str, 'deps': Any, 'mode': str, 'payload': Any, 'read': bool}
 
 
-def _node_type(tname: str, *, max_parallel=None, cache=labtech.tasks.CACHE_DEFAULT, extra_ns=None):
+DECLARED_MAX_PARALLEL: dict = {}     # what the decorator call declares - NOT read back from labtech
+
+
+def _node_type(tname: str, *, max_parallel=None, cache=labtech.tasks.CACHE_DEFAULT, extra_ns=None, bases=()):
     ns = {'__annotations__': _fields(), 'run': node_run, '__module__': MODULE, '__qualname__': tname,
           'read': True}
     if extra_ns:
         ns.update(extra_ns)
-    cls = type(tname, (), ns)
+    cls = type(tname, tuple(bases), ns)
+    DECLARED_MAX_PARALLEL[tname] = max_parallel
     return labtech.task(cache=cache, max_parallel=max_parallel)(cls)
 
 
@@ -266,9 +270,19 @@ CtxSub = _node_type('CtxSub', extra_ns={'filter_context': _ctxsub_filter})
 CtxSub2 = _node_type('CtxSub2', max_parallel=2, extra_ns={'filter_context': _ctxsub_filter})
 CtxWrap = _node_type('CtxWrap', extra_ns={'filter_context': _ctxwrap_filter})
 
-NODE_TYPES = {c.__name__: c for c in (N1, N2, N3, NN, N, NX, Z, Z1, Z2, J, P2, T, CtxSub, CtxSub2, CtxWrap)}
+
+class CtxMixin:
+    """A plain (undecorated) base class that provides filter_context, as a project-wide mixin would."""
+    filter_context = _ctxsub_filter
+
+
+# task types that INHERIT their filter_context: from a plain mixin base / from a parent task type (which also has a max_parallel)
+CtxSubMix = _node_type('CtxSubMix', bases=(CtxMixin,))
+CtxSubKid = _node_type('CtxSubKid', max_parallel=1, bases=(CtxSub2,))
+
+NODE_TYPES = {c.__name__: c for c in (N1, N2, N3, NN, N, NX, Z, Z1, Z2, J, P2, T, CtxSub, CtxSub2, CtxWrap, CtxSubMix, CtxSubKid)}
 CACHEABLE = {k for k, c in NODE_TYPES.items() if not isinstance(c._lt.cache, labtech.cache.NullCache)}
-MAX_PARALLEL = {k: c._lt.max_parallel for k, c in NODE_TYPES.items()}
+MAX_PARALLEL = {k: DECLARED_MAX_PARALLEL[k] for k in NODE_TYPES}
 
 
 # ---------------------------------------------------------------------------------------------------
